@@ -9,6 +9,9 @@
        (recvBufferReader.readClient)                        select { ctxDone, recv.get() }
        - unary RPCs have no context-watcher goroutine, this select is their only exit; it closes
        the stream, which sends RST_STREAM(CANCEL) to the peer
+     7 the back-off sleep before a retry attempt (csAttempt.shouldRetry)  select { t.C, cs.ctx.Done }
+       - the RPC's first attempt reached a handler, which answered trailers-only with a retryable
+       status; the exit returns the CONTEXT's status, not the failed attempt's
    - each is a select that includes the RPC's context, so a done context enables the exit,
    and the error is mapped by ContextErr / toRPCErr: DeadlineExceeded -> DEADLINE_EXCEEDED (4),
    Canceled -> CANCELLED (1).
@@ -29,9 +32,9 @@ Open Scope Z_scope.
 Definition status_of (kind : Z) : Z := if kind =? 2 then 4 else 1.
 
 (* does an RPC blocked at this point have a stream on the server? *)
-Definition reaches_server (point : Z) : bool := (3 <=? point) && (point <=? 5).
+Definition reaches_server (point : Z) : bool := ((3 <=? point) && (point <=? 5)) || (point =? 7).
 
-Definition valid_point (point : Z) : bool := (1 <=? point) && (point <=? 6).
+Definition valid_point (point : Z) : bool := (1 <=? point) && (point <=? 7).
 
 (* is the peer told (handler context cancelled / RST_STREAM received by the raw peer of point 6)? *)
 Definition peer_told (point : Z) : bool := reaches_server point || (point =? 6).
